@@ -816,3 +816,29 @@ pub fn mutate(text: &str, sp: &Sp, r: &mut Rng) -> String {
     }
     parts.concat()
 }
+
+// ------------------------------------------------------------------ equal-shape documents
+
+/// Documents of identical length whose removed block has identical length and sits at the same
+/// byte offset, but whose neighbourhood (blank / code lines directly before and after the block)
+/// differs. Processed back to back they give every allocation of a run the same size - state
+/// kept between calls and keyed by position, length or buffer address (a memo, a reused
+/// scratch buffer) shows up as a wrong result in the second document of a pair.
+pub fn equal_shape_docs() -> Vec<Vec<Piece>> {
+    // six bytes each; the blanks after the last line break are the indentation of the tags
+    let pre = ["abcde\n", "abcd\n ", "abc\n  ", "ab\n\n  ", "a\n\n\n ", "abc\n\n\n", "ab\n  \n", "\n\n\n\n  "];
+    let suf = ["uvwxy\n", "\nuvwx\n", "\n\nuvw\n", "  \nuv\n", "\n\n\n\nu", "uvwxyz"];
+    let mut v = vec![];
+    for p in pre {
+        let k = p.len() - p.trim_end_matches(' ').len();
+        for q in suf {
+            v.push(vec![
+                text(p),
+                elem(Kind::Mk, 1, false, false, 7, vec![text(format!("\n{}\n{}", "x".repeat(6 - k), " ".repeat(k)))]),
+                text("\n"),
+                text(q),
+            ]);
+        }
+    }
+    v
+}
